@@ -75,3 +75,6 @@ MANIFEST = {
                  "+ L1 differential correspondence",
     "design_ref": "4/C15",
 }
+
+# the unlock family also serves C02 (chk c02.units / c02.burn): those lines are judged by bin/check C02
+CHK_PREDS = ["c15."]
